@@ -18,6 +18,12 @@ def label_table():
     return labels, classes
 
 
+def double_cases():
+    """ DOUBLE_TRANSPORTER_CASES as it is in the source under test (the same table the model is regenerated from) """
+    from antismash.detection.nrps_pks_domains import module_identification as mi
+    return sorted(tuple(case) for case in mi.DOUBLE_TRANSPORTER_CASES)
+
+
 def make_domain(labels, spec):
     """ spec = (label index, subtype code, id, query_start) """
     from antismash.common.hmmscan_refinement import HMMResult
@@ -92,7 +98,10 @@ def impl(fn, args, labels):
             if fn == 1:
                 return [0] + enc_modules(modules, ids.comp)
             # identify reloaded components through (label, start, position in module)
-            reloaded = reload_modules(modules, None)
+            try:
+                reloaded = reload_modules(modules, None)
+            except Exception as exc:  # pylint: disable=broad-except
+                return [1, err_code(exc), 2]      # stage 2: Module.from_json(module.to_json())
             pos = {}
             for old, new in zip(modules, reloaded):
                 if len(old._components) != len(new._components):
@@ -103,6 +112,8 @@ def impl(fn, args, labels):
                     ids.by_id[id(b.domain)] = ids.comp(a)
             # the original modules followed by the reloaded ones ("rebuilt from its saved form is identical")
             return [0] + enc_modules(modules, ids.comp) + enc_modules(reloaded, ids.comp)
+        if fn == 4:
+            return impl_fn4(mi, args[0], labels)
         if fn == 3:
             prev_specs, cur_specs, same = args
             ids = Ids()
@@ -140,6 +151,34 @@ def impl(fn, args, labels):
     raise ValueError(fn)
 
 
+def impl_fn4(mi, specs, labels):
+    """ the hits as supplied -> modules; every module rebuilt from its saved form; the same hits handed over in
+        protein order (sorted here, stably, by the harness) -> modules.  A failure is [1, error, stage] """
+    ids = Ids()
+    domains = []
+    for spec in specs:
+        dom = make_domain(labels, spec)
+        ids.register(dom, spec[2])
+        domains.append(dom)
+    stage = 1
+    try:
+        modules = mi.build_modules_for_cds(list(domains), "cds")
+        stage = 2
+        reloaded = reload_modules(modules, None)
+        for old, new in zip(modules, reloaded):
+            if len(old._components) != len(new._components):
+                return [1, 98, stage]
+            for a, b in zip(old._components, new._components):
+                if a.domain != b.domain or a.locus != b.locus:
+                    return [1, 97, stage]
+                ids.by_id[id(b.domain)] = ids.comp(a)
+        stage = 3
+        in_order = mi.build_modules_for_cds(sorted(domains, key=lambda dom: dom.query_start), "cds")
+    except Exception as exc:  # pylint: disable=broad-except
+        return [1, err_code(exc), stage]
+    return [0] + enc_modules(modules, ids.comp) + enc_modules(reloaded, ids.comp) + enc_modules(in_order, ids.comp)
+
+
 SPEC_OFFSET = 10     # run_C14 fn 11/12/13: the decidable specification on (payload ++ implementation output)
 
 
@@ -163,33 +202,120 @@ REPAIRED_CLASS = "more_than_two_carrier_proteins"    # spec verdict [2], kept as
 WITNESS = ["PKS_KS", "ACP", "ACP", "LPG_synthase_C", "Beta_elim_lyase", "ACP", "LPG_synthase_C", "Beta_elim_lyase"]
 
 
+CLAUSES = ["module is not empty", "no docking (ignored) domain inside a module", "explicit starter only in front",
+           "at most one loader", "no NRPS loader on a PKS starter or vice versa",
+           "one terminating domain, only special domains after it",
+           "a further carrier protein is directly followed by a registered DOUBLE_TRANSPORTER_CASES pair; a modification "
+           "behind a carrier protein is a trans-AT KR or a member of such a pair",
+           "at most two carrier proteins", "the loader precedes every modification, carrier protein and terminating domain",
+           "starter slot = first starter", "loader slot = the loader",
+           "carrier protein slot = first carrier protein", "end slot = the terminating domain",
+           "modifications list = the modification domains", "others list = the remaining domains",
+           "reported flags are those of the reported slots", "is_complete / is_trans_at follow their definition"]
+
+
+def diagnose(case, out, labels):
+    """ which clause fails on which module (Model.v diag_fn); only words the report """
+    try:
+        res = common.run_driver([[case[0], 15] + case[2:] + out])[0]
+    except Exception:  # pylint: disable=broad-except
+        return None
+    if len(res) < 3 or res[0] == -1:
+        return None
+    found = {"domains_partitioned_in_protein_order": bool(res[0]), "first_in_cds_flags_ok": bool(res[1])}
+    if res[2] >= 0:
+        found["first_bad_module_index"] = res[2]
+        found["violated_clauses"] = [CLAUSES[k] for k, bit in enumerate(res[3:3 + len(CLAUSES)]) if not bit]
+        # the components of that module, from the implementation's output
+        pos = 2
+        for _ in range(res[2]):
+            pos = skip_module(out, pos)
+        ncomp = out[pos]
+        by_id = {case[3 + 4 * k + 2]: labels[case[3 + 4 * k]] for k in range(case[2])}
+        found["module"] = [by_id.get(cid, "?") for cid in out[pos + 1:pos + 1 + ncomp]]
+    return found
+
+
+def skip_module(out, pos):
+    pos += 1 + out[pos]          # components
+    pos += 4                     # slots
+    for _ in range(2):           # modifications, others
+        pos += 1 + out[pos]
+    return pos + 8               # first_in_cds + seven flags
+
+
+STAGES = {1: "build_modules_for_cds on the hits as supplied", 2: "Module.from_json(module.to_json())",
+          3: "build_modules_for_cds on the hits in protein order"}
+
+
+def labels_of(describe):
+    return describe.labels
+
+
 def spec_pass(chk, cases, impl_outs, model_outs, describe):
     """ the specification (partition, layout rules, slots/flags as functions of the components, merge and
-        reload clauses - Model.v spec_fn1/2/3) is evaluated on EVERY implementation output; a violated
-        clause is reported with the failing input.  Verdict [2] = only the clause "no more than two carrier
-        proteins" fails (the repaired finding F52): a violation like any other, nothing is suppressed """
+        reload clauses, independence of the supply order - Model.v spec_fn1/2/3/4) is evaluated on EVERY
+        implementation output; a violated clause is reported with the failing input (the hit list in the order it
+        was supplied).  Verdicts: [1] satisfied, [0] failure or partition/layout violated, [2] only the clause
+        "no more than two carrier proteins" (the repaired finding F52), [3] a module rebuilt from its saved form
+        differs, [4] the modules depend on the supply order of the hits, [-1] output undecodable.
+        Nothing is suppressed """
     spec_cases = [[c[0], c[1] + SPEC_OFFSET] + c[2:] + o for c, o in zip(cases, impl_outs)]
     verdicts = common.run_driver(spec_cases)
     chk.extra["spec_evaluated_on_implementation_outputs"] = len(verdicts)
     bad = [i for i, verdict in enumerate(verdicts) if verdict != [1]]
     chk.extra["spec_violations"] = len(bad)
     chk.extra["spec_violations_" + REPAIRED_CLASS] = sum(1 for i in bad if verdicts[i] == [2])
+    chk.extra["spec_violations_reload_differs"] = sum(1 for i in bad if verdicts[i] == [3])
+    chk.extra["spec_violations_supply_order_dependence"] = sum(1 for i in bad if verdicts[i] == [4])
     if not bad:
         return
-    bad.sort(key=lambda i: len(cases[i]))
-    first = bad[0]
-    replay = {"theorem_or_correspondence": "specification on implementation output (Model.v spec_fn%d)" % cases[first][1],
-              "function": cases[first][1], "flat": cases[first], "implementation": impl_outs[first],
-              "model": model_outs[first], "input": describe(cases[first]),
-              "spec_verdict_on_implementation_output": verdicts[first], "violating_cases": len(bad)}
-    if verdicts[first] not in ([0], [2]):
-        chk.violation("broken-correspondence", "implementation output could not be decoded by the specification", replay)
-    else:
+    # the shortest hit list of every violated clause; a raised exception / broken layout first
+    bad.sort(key=lambda i: (len(cases[i]), verdicts[i]))
+    seen = set()
+    for first in bad:
+        key = (cases[first][1], tuple(verdicts[first]), tuple(impl_outs[first][:3]) if impl_outs[first][:1] == [1] else ())
+        if key in seen or len(seen) >= 8:
+            continue
+        seen.add(key)
+        fn = cases[first][1]
+        out = impl_outs[first]
+        replay = {"theorem_or_correspondence": "specification on implementation output (Model.v spec_fn%d)" % fn,
+                  "function": fn, "flat": cases[first], "implementation": out, "case_index": first,
+                  "model": None, "input": describe(cases[first]),
+                  "hit_list_in_supply_order": describe(cases[first])["domains"],
+                  "spec_verdict_on_implementation_output": verdicts[first], "violating_cases": len(bad)}
+        if fn in (1, 2, 4) and verdicts[first] in ([0], [2]) and out[:1] == [0]:
+            found = diagnose(cases[first], out, labels_of(describe))
+            if found:
+                replay["diagnosis"] = found
+        if verdicts[first] not in ([0], [2], [3], [4]):
+            chk.violation("broken-correspondence", "implementation output could not be decoded by the specification", replay)
+            continue
         what = {1: "build_modules_for_cds output violates partition/layout rules",
                 2: "module rebuilt from its saved form differs (or build output violates the rules)",
-                3: "combine_modules output violates the merge/layout/reload rules"}[cases[first][1]]
-        if verdicts[first] == [2]:
+                3: "combine_modules output violates the merge/layout/reload rules",
+                4: "build_modules_for_cds output violates partition/layout rules"}[fn]
+        if out[:1] == [1]:
+            what = "%s raised %s" % (STAGES.get(out[2], "module construction") if fn in (2, 4) and len(out) > 2
+                                     else {1: "build_modules_for_cds", 2: "build_modules_for_cds",
+                                           3: "build_modules_for_cds or combine_modules", 4: "module construction"}[fn],
+                                     common.ERR_NAME.get(out[1], str(out[1])))
+        elif replay.get("diagnosis", {}).get("violated_clauses"):
+            diag = replay["diagnosis"]
+            what = "build_modules_for_cds returned the module %s, violating: %s" % (
+                ",".join(diag.get("module", [])), "; ".join(diag["violated_clauses"]))
+            if verdicts[first] == [2]:
+                what += " (repaired finding class %s is back)" % REPAIRED_CLASS
+        elif replay.get("diagnosis") and not replay["diagnosis"]["domains_partitioned_in_protein_order"]:
+            what = "the modules of build_modules_for_cds do not partition the gene's non-docking domains in protein order"
+        elif verdicts[first] == [2]:
             what += " (more than two carrier proteins in one module: repaired finding class %s is back)" % REPAIRED_CLASS
+        elif verdicts[first] == [3]:
+            what = "a module rebuilt from its saved form (Module.from_json(m.to_json())) differs from the module"
+        elif verdicts[first] == [4]:
+            what = ("the modules depend on the order in which the hits are supplied: build_modules_for_cds(hits) differs "
+                    "from build_modules_for_cds(hits sorted by query_start)")
         chk.violation("counterexample", what, replay)
 
 
@@ -276,18 +402,169 @@ class Gen:
         return specs
 
 
-RULE = ("every implementation output is also judged by the decidable specification of Model.v (spec_fn1/2/3); "
-        "random domain sequences over all labels of the generated class tables (weighted to assembly-line labels, KS subtypes, "
-        "ties and disorder in query_start), single genes (build, build+reload) and adjacent gene pairs (combine_modules, both "
-        "strand relations); non-trivial = at least two modules or a merge attempt with non-empty genes; distinct by flat encoding")
+    # ---------------- supply order of the hits (build_modules_for_cds orders them by query_start itself)
+    SUPPLY_MODES = ["position", "shuffle", "shuffle", "shuffle", "reverse", "by_label", "rotate", "swap"]
+
+    def supply(self, specs, mode=None):
+        """ the same hits handed over in another order """
+        rng = self.rng
+        mode = mode or rng.choice(self.SUPPLY_MODES)
+        specs = list(specs)
+        if mode == "position":
+            specs.sort(key=lambda s: s[3])
+        elif mode == "shuffle":
+            rng.shuffle(specs)
+        elif mode == "reverse":
+            specs.reverse()
+        elif mode == "by_label":          # hits grouped by profile, as a per-profile scan would list them
+            specs.sort(key=lambda s: (self.labels[s[0]], s[3]))
+        elif mode == "rotate" and specs:
+            k = rng.randrange(len(specs))
+            specs = specs[k:] + specs[:k]
+        elif mode == "swap" and len(specs) > 1:
+            k = rng.randrange(len(specs) - 1)
+            specs[k], specs[k + 1] = specs[k + 1], specs[k]
+        return specs
+
+    def place(self, items, first_id=0, ties=False):
+        """ items: label names or (label name, KS subtype code) in protein order -> specs with increasing
+            query_start; with ties some neighbours share their query_start (the sort is stable: among equal
+            positions the supply order decides) """
+        rng = self.rng
+        specs = []
+        start = rng.randint(0, 5)
+        for i, item in enumerate(items):
+            name, sub = item if isinstance(item, tuple) else (item, None)
+            if name not in self.index:      # a label the source under test no longer knows
+                continue
+            if sub is None:
+                sub = rng.choice([0, 1, 1, 2, 3]) if name == "PKS_KS" else 0
+            if not (ties and i and rng.random() < 0.35):
+                start += rng.randint(1, 30)
+            specs.append((self.index[name], sub, first_id + i, start))
+        return specs
+
+    # ---------------- tandem carrier proteins (DOUBLE_TRANSPORTER_CASES, the only reader of the look-ahead)
+    PREFIXES = [[], [("PKS_KS", 3)], [("PKS_KS", 1)], [("PKS_KS", 0), "PKS_AT"], ["PKS_AT"], ["Condensation_LCL", "AMP-binding"],
+                ["AMP-binding"], ["Condensation_Starter", "AMP-binding", "nMT"], ["CAL_domain"],
+                [("PKS_KS", 1), "PKS_DH", "PKS_KR"], ["Condensation_LCL"], [("PKS_KS", 3), "Trans-AT_docking"],
+                [("PKS_KS", 2), "PKS_AT", "ACP", ("PKS_KS", 1)], ["Heterocyclization", "A-OX", "cMT"], ["PKS_KR"],
+                ["Thioesterase"], ["NRPS-COM_Nterm", "Condensation_DCL", "AMP-binding"]]
+    SUFFIXES = [[], ["PKS_KR"], ["Thioesterase"], ["PKS_KR", "Thioesterase"], ["Thioesterase", "Thioesterase"], ["ACP"],
+                ["PKS_KR", "PKS_KR"], [("PKS_KS", 1), "PKS_AT", "ACP"], ["Epimerization"], ["TD", "PKS_KR"],
+                ["Condensation_LCL", "AMP-binding", "PCP"], ["Trans-AT_docking", "PKS_KR"], ["TIGR01720", "PKS_DH"],
+                ["PKS_Docking_Cterm"], ["nMT", "PCP", "Epimerization"]]
+    CORE_CPS = [("ACP", "ACP"), ("PCP", "PCP"), ("ACP", "PCP"), ("PP-binding", "PKS_PP")]
+    INTERLOPERS = ["NRPS-COM_Nterm", "TIGR01720", "cMT", "ACPS", "PKS_KR", "Trans-AT_docking", "PCP", "Thioesterase"]
+
+    def set_cases(self, cases):
+        import itertools
+        self.cases = [tuple(case) for case in cases]
+        self.carriers = sorted(self.labels[i] for i in self.classes["CARRIER_PROTEINS"])
+        tails = []
+        for case in self.cases:
+            elems = sorted(set(case))
+            # every permutation, every prefix of one, every repetition: all words over the members up to one longer
+            for n in range(len(case) + 2):
+                tails += [list(word) for word in itertools.product(elems, repeat=n)]
+            tails.append(list(case) + list(case))
+            tails.append(list(case) + [self.carriers[0]] + list(case))
+            for extra in self.INTERLOPERS:
+                for pos in range(len(case) + 1):
+                    tails.append(list(case[:pos]) + [extra] + list(case[pos:]))
+                tails.append(list(reversed(case)) + [extra])
+        self.tails = [t for i, t in enumerate(tails) if t not in tails[:i]]
+        also = [(a, b) for a in self.carriers for b in self.carriers if (a, b) not in self.CORE_CPS]
+        self.all_cps = [pair for pair in self.CORE_CPS if pair[0] in self.carriers and pair[1] in self.carriers] + also
+
+    def tandem_items(self, prefix=None, pair=None, tail=None, suffix=None):
+        """ [module context] CP CP [members of a registered pair in some arrangement] [further domains] """
+        rng = self.rng
+        prefix = rng.choice(self.PREFIXES) if prefix is None else prefix
+        pair = (rng.choice(self.all_cps) if rng.random() < 0.5 else rng.choice(self.all_cps[:4])) if pair is None else pair
+        tail = rng.choice(self.tails) if tail is None else tail
+        if suffix is None:
+            suffix = rng.choice(self.SUFFIXES) if rng.random() < 0.8 else [self.labels[self.label()] for _ in range(rng.randint(1, 3))]
+        return list(prefix) + list(pair) + list(tail) + list(suffix)
+
+    def tandem(self, first_id=0, **parts):
+        rng = self.rng
+        specs = self.place(self.tandem_items(**parts), first_id, ties=rng.random() < 0.25)
+        return self.supply(specs)
+
+    def tandem_core(self, thorough):
+        """ deterministic part: every arrangement of the pair members behind CP CP, in every module context
+            (quick: carrier protein pair, following domains and supply order drawn at random; thorough: the full
+            product over the core carrier protein pairs, in position order and in two other supply orders) """
+        out = []
+        for tail in self.tails:
+            for prefix in self.PREFIXES:
+                if thorough:
+                    for pair in self.all_cps[:4]:
+                        for suffix in self.SUFFIXES:
+                            specs = self.place(self.tandem_items(prefix, pair, tail, suffix), 0, ties=self.rng.random() < 0.15)
+                            out.append(self.supply(specs, "position"))
+                            out.append(self.supply(specs, "shuffle"))
+                            out.append(self.supply(specs))
+                else:
+                    specs = self.place(self.tandem_items(prefix, None, tail, None), 0, ties=self.rng.random() < 0.15)
+                    out.append(self.supply(specs, "position"))
+                    out.append(self.supply(specs, self.rng.choice(["shuffle", "reverse", "by_label", "shuffle"])))
+        return out
+
+    def permutation_family(self):
+        """ one hit list with pairwise different positions in many supply orders (all of them up to four hits) """
+        import itertools
+        rng = self.rng
+        r = rng.random()
+        if r < 0.5:
+            base = self.place(self.tandem_items(), 0)
+        elif r < 0.8:
+            base = self.module_like()
+        else:
+            base = sorted({s[3]: s for s in self.sequence(0, 7)}.values(), key=lambda s: s[3])
+        if len(base) <= 4:
+            return [list(perm) for perm in itertools.permutations(base)]
+        return [self.supply(base, "shuffle") for _ in range(6)] + [self.supply(base, "reverse"), self.supply(base, "by_label")]
+
+    def single_gene(self, first_id=0, max_len=9):
+        """ one gene for build / build+reload / supply order independence """
+        rng = self.rng
+        r = rng.random()
+        if r < 0.4:
+            return self.tandem(first_id)
+        if r < 0.7:
+            specs = self.module_like(first_id)
+            if rng.random() < 0.3:      # ties
+                specs = [(s[0], s[1], s[2], s[3] if rng.random() < 0.7 else specs[max(0, k - 1)][3]) for k, s in enumerate(specs)]
+            return self.supply(specs) if rng.random() < 0.6 else specs
+        specs = self.sequence(first_id, max_len)
+        return self.supply(specs) if rng.random() < 0.3 else specs
+
+
+RULE = ("every implementation output is also judged by the decidable specification of Model.v (spec_fn1/2/3/4); "
+        "random domain sequences over all labels of the generated class tables (weighted to assembly-line labels, KS subtypes), "
+        "hit lists supplied in position order AND shuffled / reversed / grouped by profile / rotated, with pairwise different and "
+        "with tied query_start; tandem carrier proteins: [module context] CP CP [every word over the members of each "
+        "DOUBLE_TRANSPORTER_CASES entry up to one longer than the entry, the entry twice, with a foreign domain at every place] "
+        "[further domains] for all carrier protein labels; permutation families (all supply orders of up to four hits); single "
+        "genes (build, build+reload, build+reload+build in position order) and adjacent gene pairs (combine_modules, both strand "
+        "relations); non-trivial = at least two modules or a merge attempt with non-empty genes; distinct by flat encoding")
+FN_NAMES = {1: "build_modules_for_cds", 2: "build+from_json(to_json)", 3: "combine_modules",
+            4: "build(as supplied)+reload+build(position order)"}
 
 
 def run(chk):
+    import time
+    t0 = time.time()
     if not chk.build_and_audit():
         return chk.finish(RULE)
+    t1 = time.time()
     labels, classes = label_table()
     gen = Gen(chk.rng, labels, classes)
-    total = 20000 if chk.tier == "quick" else 300000
+    gen.set_cases(double_cases())
+    thorough = chk.tier != "quick"
+    total = 500000 if thorough else 20000
     cases, impl_outs = [], []
     ix = gen.index
     # regression corpus: witness of the repaired combine_modules defect (known_findings.json F22)
@@ -303,21 +580,45 @@ def run(chk):
               (3, ([(ix[name], 0, k, 10 * (k + 1)) for k, name in enumerate(WITNESS[:3])],
                    [(ix[name], 0, 3 + k, 10 * (k + 1)) for k, name in enumerate(WITNESS[3:])], True)),
               (3, ([(ix[name], 0, k, 10 * (k + 1)) for k, name in enumerate(WITNESS[:1])],
-                   [(ix[name], 0, 1 + k, 10 * (k + 1)) for k, name in enumerate(WITNESS[1:])], True))]
+                   [(ix[name], 0, 1 + k, 10 * (k + 1)) for k, name in enumerate(WITNESS[1:])], True)),
+              # the F52 witness with the hits supplied in reverse order
+              (4, ([(ix[name], 0, k, 10 * (k + 1)) for k, name in enumerate(WITNESS)][::-1],))]
+    # every arrangement of the pair members behind two carrier proteins, in every module context
+    queue = list(corpus) + [(4, (specs,)) for specs in gen.tandem_core(thorough)]
+    chk.extra["tandem_core_cases"] = len(queue) - len(corpus)
+    chk.extra["double_transporter_cases"] = [list(case) for case in gen.cases]
+    chk.extra["tandem_tails"] = len(gen.tails)
+    queue.reverse()     # consumed from the end
+    orders = {"position_order": 0, "other_order": 0, "tied_positions": 0}
+    tandem_seen = 0
     for i in range(total):
         r = chk.rng.random()
-        if i < len(corpus):
-            fn, args = corpus[i]
-        elif r < 0.35:
-            fn, args = 1, (gen.sequence(),)
-        elif r < 0.55:
-            fn, args = 2, (gen.sequence() if chk.rng.random() < 0.6 else gen.module_like(),)
+        if queue:
+            fn, args = queue.pop()
+        elif r < 0.12:
+            fn, args = 1, (gen.single_gene(),)
+        elif r < 0.20:
+            fn, args = 2, (gen.single_gene(),)
+        elif r < 0.52:
+            fn, args = 4, (gen.single_gene(),)
+        elif r < 0.56:
+            family = [(4, (specs,)) for specs in gen.permutation_family()]
+            chk.count("permutation_families")
+            fn, args = family[0]
+            queue.extend(family[1:])
         else:
-            mk = lambda first: gen.module_like(first) if chk.rng.random() < 0.6 else gen.sequence(first, 6)
+            def mk(first):
+                q = chk.rng.random()
+                if q < 0.5:
+                    specs = gen.module_like(first)
+                    return gen.supply(specs) if chk.rng.random() < 0.25 else specs
+                if q < 0.6:
+                    return gen.tandem(first)
+                return gen.sequence(first, 6)
             prev = mk(0)
             cur = mk(len(prev))
             if chk.rng.random() < 0.3:
-                cur = cur + [(s[0], s[1], len(prev) + len(cur) + j, cur[-1][3] + 20 * (j + 1) if cur else 5)
+                cur = cur + [(s[0], s[1], len(prev) + len(cur) + j, max(c[3] for c in cur) + 20 * (j + 1) if cur else 5)
                              for j, s in enumerate(gen.module_like(0))]
             fn, args = 3, (prev, cur, chk.rng.random() < 0.85)
         if fn == 3:
@@ -327,8 +628,16 @@ def run(chk):
         out = impl(fn, args, labels)
         cases.append(flat)
         impl_outs.append(out)
-        chk.count({1: "build_modules_for_cds", 2: "build+from_json(to_json)", 3: "combine_modules"}[fn])
-        nontrivial = (fn in (1, 2) and len(out) > 1 and out[0] == 0 and out[1] >= 2) or (fn == 3 and args[0] and args[1])
+        chk.count(FN_NAMES[fn])
+        for specs in args[:2] if fn == 3 else args[:1]:
+            starts = [s[3] for s in specs]
+            orders["position_order" if starts == sorted(starts) else "other_order"] += 1
+            if len(set(starts)) < len(starts):
+                orders["tied_positions"] += 1
+            names = [labels[s[0]] for s in sorted(specs, key=lambda s: s[3])]
+            if any(a in gen.carriers and b in gen.carriers for a, b in zip(names, names[1:])):
+                tandem_seen += 1
+        nontrivial = (fn in (1, 2, 4) and len(out) > 1 and out[0] == 0 and out[1] >= 2) or (fn == 3 and args[0] and args[1])
         if fn == 3 and out[0] == 0 and out[1] == 1:
             chk.count("combine_merged")
         if out[0] == 1:
@@ -336,11 +645,25 @@ def run(chk):
         chk.note_case(flat, nontrivial, {"function": fn, "domains": [[(labels[s[0]], SUBTYPES[s[1]], s[3]) for s in a]
                                                                     for a in args if isinstance(a, list)],
                                          "implementation": out})
-    describe = lambda flat: {"function": flat[1], "payload": flat[2:],
-                             "domains": decode_domains(flat, labels)}
+    chk.extra["hit_lists_by_supply_order"] = orders
+    chk.extra["hit_lists_with_adjacent_carrier_proteins"] = tandem_seen
+    t2 = time.time()
+    def describe(flat):
+        return {"function": flat[1], "payload": flat[2:], "domains": decode_domains(flat, labels)}
+    describe.labels = labels
+    # first the specification on every implementation output (a violated clause with its hit list is the best
+    # report), then model = implementation
+    spec_pass(chk, cases, impl_outs, None, describe)
+    t3 = time.time()
     model_outs = common.correspondence(chk, cases, impl_outs, spec_fn_offset=SPEC_OFFSET, describe=describe)
-    spec_pass(chk, cases, impl_outs, model_outs, describe)
+    for _kind, _what, rep in chk.violations:
+        if isinstance(rep, dict) and rep.get("model", 0) is None and "case_index" in rep:
+            rep["model"] = model_outs[rep["case_index"]]
+    t4 = time.time()
     chk.crosscheck_vm(cases, model_outs)
+    chk.extra["wall_split_s"] = {"build_and_audit": round(t1 - t0, 1), "generate_and_run_implementation": round(t2 - t1, 1),
+                                 "specification": round(t3 - t2, 1), "model": round(t4 - t3, 1),
+                                 "vm_compute_crosscheck": round(time.time() - t4, 1)}
     return chk.finish(RULE)
 
 
